@@ -168,6 +168,7 @@ func ZZ_C08_Head(nops, maxreads int) {
 		h []byte
 	}
 	var announced []pair
+	var handedOut []pair // what callers received and may keep
 	hits := 0
 	for i := 0; i < nops; i++ {
 		switch zzvrf.Pick("op", 3) {
@@ -206,7 +207,16 @@ func ZZ_C08_Head(nops, maxreads int) {
 				ok = zzvrf.Or(ok, zzvrf.And(p.n == num, zzvrf.BytesEq(p.h, hash)))
 			}
 			zzvrf.Assert(ok, "T4-head-is-an-announced-pair")
+			handedOut = append(handedOut, pair{num, hash})
 		}
+	}
+	// a pair a caller received stays an announced pair, whatever the cache does afterwards
+	for _, got := range handedOut {
+		ok := false
+		for _, p := range announced {
+			ok = zzvrf.Or(ok, zzvrf.And(p.n == got.n, zzvrf.BytesEq(p.h, got.h)))
+		}
+		zzvrf.Assert(ok, "T4-received-head-stays-an-announced-pair")
 	}
 	zzvrf.Reach("end")
 }
